@@ -225,4 +225,47 @@ theorem selectNodes_empty_exclusions (g : G) (R T : Option (List Node)) :
     simp [g2Of, dX]
   simp [selectNodes, h]
 
+/-! ### naming a node several times names it once -/
+
+theorem contains_or_any_dup {α : Type} [BEq α] [LawfulBEq α] (r : α) (R : List α) (hr : r ∈ R) (f : α → Bool) (x : α) :
+    ((r :: R).contains x || (r :: R).any f) = (R.contains x || R.any f) := by
+  have h1 : (r :: R).contains x = R.contains x := by
+    simp only [List.contains_cons]
+    by_cases hx : x = r
+    · subst hx; simp [hr]
+    · have : (x == r) = false := by simpa using hx
+      simp [this]
+  have h2 : (r :: R).any f = R.any f := by
+    simp only [List.any_cons]
+    cases hf : f r with
+    | false => simp
+    | true =>
+      have : R.any f = true := List.any_eq_true.mpr ⟨r, hr, hf⟩
+      simp [this]
+  rw [h1, h2]
+
+/-- a root / an excluded node / a target named twice (or through two aliases that resolve to the same node) changes nothing -/
+theorem selectNodes_repeated_names (g : G) (r : Node) (R X T : List Node) (hR : r ∈ R) :
+    selectNodes g (some (r :: R)) none none = selectNodes g (some R) none none ∧
+    (∀ x, x ∈ X → selectNodes g none (some (x :: X)) none = selectNodes g none (some X) none) ∧
+    (∀ t, t ∈ T → selectNodes g none none (some (t :: T)) = selectNodes g none none (some T)) := by
+  refine ⟨?_, ?_, ?_⟩
+  · have hs1 : s1 g (some (r :: R)) = s1 g (some R) := by
+      funext y
+      simp only [s1]
+      rw [contains_or_any_dup r R hR (fun q => reachB g q y) y]
+    simp only [selectNodes, g2Of, g1Of, hs1]
+  · intro x hx
+    have hd : ∀ g1, dX g1 (some (x :: X)) = dX g1 (some X) := by
+      intro g1; funext y
+      simp only [dX]
+      rw [contains_or_any_dup x X hx (fun q => reachB g1 q y) y]
+    simp only [selectNodes, g2Of, hd]
+  · intro t ht
+    have h3 : ∀ g2, s3 g2 (some (t :: T)) = s3 g2 (some T) := by
+      intro g2; funext y
+      simp only [s3]
+      rw [contains_or_any_dup t T ht (fun q => reachB g2 y q) y]
+    simp only [selectNodes, h3]
+
 end GM
